@@ -21,6 +21,8 @@ package cache
 //@   callsite Until: [C08:lifetime-counts-from-now] arg0 == expireTime
 //@   callsite SetIfAbsent: [C08:backend-lifetime-is-the-time-left] arg3 == gLeft
 //@   callsite Set: [C08:backend-lifetime-is-the-time-left] arg3 == gLeft
+//@   callsite Set: [C07:into-this-caches-back-end] arg0 == c.backend
+//@   callsite SetIfAbsent: [C07:into-this-caches-back-end] arg0 == c.backend
 //@   callsite SetIfAbsent: [C07:entry-holds-what-was-stored] entryHolds(arg2, arg1, k, v, storedTime, expireTime)
 //@   callsite Set: [C07:entry-holds-what-was-stored] entryHolds(arg2, arg1, k, v, storedTime, expireTime)
 // the key kept by the back end and by the entry is a copy of its own: the caller recycles its key buffer right away
